@@ -144,3 +144,60 @@ specialise(
     bounds="channel fixed per instance: label, hint, itext label, choice label; whole document compared through the public _to_ugly_xml/_to_pretty_xml writers",
     weight=80,
 )
+
+
+# ---- c: text that reaches node() as a number, and text-bearing elements with structural tag names ----
+from pyxform.utils import node as _node  # noqa: E402
+
+TAGS = ["a", "item", "text", "root", "instance", "model", "translation", "itext", "value", "label", "h:body", "h:head", "h:html", "meta", "data", "bind"]
+
+
+def _same(n) -> bool:
+    tc = tree(xmlmodel.parse(n.toxml()).documentElement)
+    tp = tree(xmlmodel.parse(n.toprettyxml(indent="  ")).documentElement)
+    return SH.norm(tc) == SH.norm(tp)
+
+
+@ob(
+    "C15",
+    "c.scalar-text",
+    timeout=300,
+    kernel=K,
+    shims=("S2", "S5"),
+    symbolic="an integer (-9..99) passed to node() as element content (choice names/values from dict or JSON workbooks arrive as numbers), alone / next to sibling elements / below two element-only levels (symbolic int)",
+    bounds="3 tree arrangements; the pretty and compact serialisations must parse to the same tree",
+    weight=20,
+)
+def c15_scalar(v: int, arr: int) -> bool:
+    """
+    pre: -9 <= v <= 99 and 0 <= arr <= 2
+    post: _ == True
+    """
+    if arr == 0:
+        n = _node("name", v)
+    elif arr == 1:
+        n = _node("item", _node("name", v), _node("label", "L"))
+    else:
+        n = _node("root", _node("item", _node("name", v), _node("w", 2)))
+    return _same(n)
+
+
+@ob(
+    "C15",
+    "c.tag-names",
+    timeout=300,
+    kernel=K,
+    shims=("S2", "S5"),
+    symbolic="tag name chosen by a symbolic index from 16 names (XForm structural names such as item, text, root, instance, model, h:body are legal question names), one symbolic text character, text-bearing leaf alone or inside an element-only parent of the same name (boolean)",
+    bounds="the pretty writer's layout decision must depend on the node's content, never on its name",
+    weight=20,
+)
+def c15_tagname(ti: int, nested: bool, c0: int) -> bool:
+    """
+    pre: 0 <= ti <= 15 and 32 <= c0 <= 126
+    post: _ == True
+    """
+    t = TAGS[ti]
+    leaf = _node(t, "b" + S(c0))
+    n = _node(t, leaf, _node("z")) if nested else leaf
+    return _same(n)
